@@ -359,6 +359,41 @@ def sort(a, axis=-1, kind=None, order=None, **kw):
     return a[argsort(a)]
 
 
+MERGE_SORT = [False]
+
+
+def _sorted_by_network(vals):
+    """ascending order statistics without forking: identical terms are grouped (a sample made of few distinct
+    symbolic points repeated many times), the distinct ones go through a min/max sorting network"""
+    groups = []
+    for v in vals:
+        for g in groups:
+            a = g[0]
+            same = (a is v) or (isinstance(a, SR) and isinstance(v, SR) and a.t.eq(v.t)) or \
+                   (not isinstance(a, (SR, SB)) and not isinstance(v, (SR, SB)) and a == v)
+            if same:
+                g[1] += 1
+                break
+        else:
+            groups.append([v, 1])
+    if any(c != groups[0][1] for _, c in groups):
+        # different multiplicities: fall back to plain network over all values (small inputs only)
+        items = list(vals)
+        mult = 1
+    else:
+        items = [g[0] for g in groups]
+        mult = groups[0][1]
+    k = len(items)
+    for i in range(k):                      # odd-even transposition network
+        for j in range(i % 2, k - 1, 2):
+            lo, hi = sym._e_min(items[j], items[j + 1]), sym._e_max(items[j], items[j + 1])
+            items[j], items[j + 1] = lo, hi
+    out = []
+    for it in items:
+        out.extend([it] * mult)
+    return out
+
+
 def _quantile_sorted(s, n, q):
     """numpy's default ('linear') quantile on a sorted 1-d sequence."""
     if not isinstance(q, (SR, SB)):
@@ -391,8 +426,11 @@ def quantile(a, q, axis=None, **kw):
         raise HarnessError("symbolic quantile only for 1-d arrays")
     a = _O(a.ravel())
     vals = list(a.view(_np.ndarray))
-    order = _argsort_stable(vals)
-    s = [vals[i] for i in order]
+    if len(vals) > 8 or MERGE_SORT[0]:
+        s = _sorted_by_network(vals)       # no forks: order statistics as min/max (ite) terms
+    else:
+        order = _argsort_stable(vals)
+        s = [vals[i] for i in order]
     n = len(s)
     if isinstance(qs, (SR, SB)) or _np.ndim(qs) == 0:
         return _quantile_sorted(s, n, _unbox(qs))
